@@ -42,7 +42,8 @@ def strategy(draw, tier="quick"):
     base = draw(gen_spec(allow_rels=True, allow_rdep=True, max_space=1, nvals=1))
     base["vals"] = []
     kind = draw(st.sampled_from(DEFECTS + VALID + SILENT))
-    return {"base": base, "inject": kind, "variant": draw(st.integers(0, 11)), "pick": draw(st.integers(0, 50))}
+    return {"base": base, "inject": kind, "variant": draw(st.integers(0, 11)), "pick": draw(st.integers(0, 50)),
+            "v2": draw(st.integers(0, 15))}
 
 
 def _m(name, mod=0, **kw):
@@ -71,6 +72,7 @@ def inject(case):
     """returns (spec, expect) with expect in {'raise', 'ok', 'either'} and a label"""
     spec = copy.deepcopy(case["base"])
     kind, v = case["inject"], case["variant"]
+    v2 = case.get("v2", 0)
     B = spec["bodies"]
     label = kind
     if kind == "none":
@@ -155,21 +157,40 @@ def inject(case):
         return spec, "raise", label + ":two_transactions"
     if kind == "dependent_conflict":
         B.insert(0, _m("x9"))
+        B.insert(1, _m("x8"))
+        # how the two transactions conflict: through a shared exclusive method, or by an explicit add_conflict declared
+        # on the dependee / on the dependent transaction / on the two methods they call, before or after the dependency
+        how = ["shared", "conf_ab", "conf_ba", "conf_methods"][v2 % 4]
+        prio = "U" if (v2 // 4) % 2 else None  # None: the priority that agrees with the dependency
+        second = "x9" if how == "shared" else "x8"
         if v % 2 == 0:
-            nb = _t("nx", [_call("x9")])
+            a, b = "tx", "nx"
+            nb = _t("nx", [_call(second)])
             outer = [_call("x9")]
             if v % 4 == 0:
                 outer.append({"t": "nt", "body": nb})
             else:
                 outer.append(_alts(0, [[{"t": "nt", "body": nb}]]))
             B.append(_t("tx", outer))
-            label += ":nested_shares_method"
+            label += ":nested"
+            dep = None
         else:
+            a, b = "e0", "e1"
             B.append(_t("e0", [_call("x9")]))
-            B.append(_t("e1", [_call("x9", en=True)]))
-            spec["rels"].append(["sbr", "e0", "e1"])
+            B.append(_t("e1", [_call(second, en=True)]))
+            dep = ["sbr", "e0", "e1"]
             label += ":ready_dependent_schedule_before"
-        return spec, "raise", label
+        conf = {
+            "shared": None,
+            "conf_ab": ["conf", a, b, prio or "L"],
+            "conf_ba": ["conf", b, a, prio or "R"],
+            "conf_methods": ["conf", "x9", "x8", prio or "L"],
+        }[how]
+        new = [r for r in (dep, conf) if r is not None]
+        if (v2 // 8) % 2:
+            new.reverse()
+        spec["rels"] += new
+        return spec, "raise", label + ":" + how
     if kind == "valid_alternatives":
         B.insert(0, _m("x9"))
         k = v % 3
